@@ -61,9 +61,13 @@ P = {
                   "state), for any number of adapters (shared addresses allowed), permanent or not, any budget >= 0; the model is "
                   "replayed against the real Manager step by step (trace inclusion on calls, Sender()/Receiver(), registry).",
     "level_note": "Proof is about the model of the repaired code (fix: failing start no longer counts ttl below 0; the two "
-                  "concurrency fixes 047ccad / 85c7cec do not change sequential behaviour). The tie to Go "
-                  "is the differential check, bounded by generator quality; goroutine interleavings inside the Manager are not "
-                  "modelled; no-deadlock only tested.",
+                  "concurrency fixes aef8c74 / 4771bec do not change sequential behaviour). The tie to Go "
+                  "is the differential check, bounded by generator quality. Goroutine interleavings inside the Manager: "
+                  "Model/ClaMgrConc.v (part C16_conc) is a sub-step model of Close / handler / element handlers / client calls / "
+                  "retry tick; termination of every run is proved unbounded, no-deadlock / exactly-once / no-panic for all "
+                  "interleavings over the configuration bound stated in the theorems (race-free configurations cmc_cfg_ok, by an "
+                  "exhaustive exploration inside Coq with a proved-sound explorer); outside cmc_cfg_ok the code as it is has "
+                  "reachable violations (six known findings clamgr.conc.*, confirmed on the real code).",
     "timeout_quick": 600,
     "timeout_thorough": 6000,
 }
